@@ -33,10 +33,12 @@ def streams(tier, seed):
         if _ == 0:
             import itertools as _it
             for L in ((4,) if tier == "quick" else (3, 4, 5)):
-                for inc in _it.product((1, 2, 3), repeat=L - 1):
+                for ni, inc in enumerate(_it.product((1, 2, 3), repeat=L - 1)):
+                    # the unit of the axis is the caller's business: seconds with ns steps, Hz with MHz steps
+                    scale = [Fraction(1), Fraction(1, 10 ** 9), Fraction(10 ** 6)][ni % 3]
                     xs = [Fraction(0)]
                     for q in inc:
-                        xs.append(xs[-1] + Fraction(q, 2))
+                        xs.append(xs[-1] + Fraction(q, 2) * scale)
                     a = new_op(rng, 0, dims=["f2", "x"], shape=[L, 2], cplx=False)
                     a["coords"][0] = [str(v) for v in xs]
                     out.append([a, op_integrate(a, "f2")])
